@@ -553,6 +553,23 @@ impl OcflStore for FsOcflStore {
         );
 
         if storage_path.exists() {
+            if storage_path.is_dir() && is_object_root(&storage_path)? {
+                // Two ids can map to the same path, e.g. under the omit-prefix layouts. Only the
+                // object that was asked for may be removed.
+                if let Ok(inventory) = parse_inventory(&storage_path, &self.storage_root) {
+                    if inventory.id != object_id {
+                        return Err(RocflError::CorruptObject {
+                            object_id: object_id.to_string(),
+                            message: format!(
+                                "Expected object to exist at {} but found object {} instead.",
+                                storage_path.to_string_lossy(),
+                                inventory.id
+                            ),
+                        });
+                    }
+                }
+            }
+
             if storage_path.is_dir()
                 && !is_object_root(&storage_path)?
                 && contains_object_root(&storage_path)?
